@@ -4,11 +4,21 @@ which reference-oracle families belong to the property, evidence level and trust
 SUITES = {
     # suite -> harness generator parameters per tier
     "C": {"quick": ["--cases", "500"], "thorough": ["--cases", "6000"]},
+    "F": {"quick": ["--cases", "60"], "thorough": ["--cases", "1500"]},
     "P": {"quick": ["--cases", "300", "--max-ops", "7"], "thorough": ["--cases", "3000", "--max-ops", "14"]},
     "T": {"quick": ["--cases", "150", "--max-ops", "60"], "thorough": ["--cases", "1500", "--max-ops", "120"]},
 }
 
 PROPS = {
+    "C20": {
+        "lean": ["Brc20.Props.C20"],
+        "suites": ["F"],
+        "level": "proof",
+        "trusted": ["translator tools/gen_start.py (call order in start(), keys checked/written)",
+                    "u32/bool to_string renderings are injective (configurations are compared through their recorded strings)",
+                    "RocksDB get/put of the config column"],
+        "assumptions": ["network names are compared literally: `mainnet` and `bitcoin` are different configurations"],
+    },
     "C15": {
         "lean": ["Brc20.Props.C15"],
         "suites": ["P"],
